@@ -125,6 +125,19 @@ CLAIMED = {
         note="Coq kernel; stdlib real-number axioms; fastmath reassociation allowed by tolerance 1e-9; site averaging passed as data.",
         technique="Coq proof over R (loop invariant) + vm_compute correspondence of kernel and Polyak step + run oracle",
         design="7/C13"),
+    "C16": dict(
+        text="Coq theorems by structural induction (any depth): evaluating a composite = evaluating the operands (time only to "
+             "time-dependent ones) and applying exact rational arithmetic, errors propagating left to right; time_dependent iff "
+             "some leaf is time-dependent; construction raises only for number-number; equality reflexive, symmetric, "
+             "flag-preserving and false (never an error) across shapes; _clear_cache complete (and a refutation of the code as "
+             "found). Correspondence: ALL 60,480 composites with operands of depth <= 1 generated identically in Python (real "
+             "CompositeParameter) and in Coq, compared on value / exception kind at two argument patterns, flag, construction "
+             "errors, == on sampled pairs. Oracle on the real objects: pointwise recursion, pickling round trip, cache "
+             "clearing, scalar and array arguments, operator overloads in both orders, acceptance by tdgl.solve.",
+        note="Coq kernel; no axioms beyond the standard library's Q (none); user functions are data (leaf values); float power "
+             "only modelled for small natural exponents (others marked Unsupported and checked by the oracle only).",
+        technique="Coq structural-induction proofs + exhaustive depth-2 enumeration correspondence",
+        design="7/C16"),
 }
 
 PENDING_REASON = "check not built yet in this session (planned, see DESIGN.md section 7); not claimed until it runs"
